@@ -36,6 +36,7 @@ func runC14L2(r *core.Run) (*core.Violation, func() *core.Violation) {
 	maxSteps := 60 + r.Choose(400, "knob.l2steps")
 	tail := 20 + r.Choose(80, "knob.l2tail")
 	injections := 2 + r.Choose(6, "knob.injections")
+	swap := []bool{r.Bool(40, "knob.swap-hosts0"), r.Bool(40, "knob.swap-hosts1")}
 	prov := testAddr(1)
 	tenant := testAddr(3)
 	x.prov = ptypes.Provider{Owner: prov.String(), HostURI: "https://p.example.com"}
@@ -114,6 +115,7 @@ func runC14L2(r *core.Run) (*core.Violation, func() *core.Violation) {
 			l := &mLease{id: mtypes.MakeLeaseID(mtypes.MakeBidID(oid, prov)), group: dtypes.Group{GroupID: oid.GroupID(), State: dtypes.GroupOpen, GroupSpec: gs}}
 			l.key = mquery.LeasePath(l.id)
 			l.hosts = []string{fmt.Sprintf("app%d.example.com", i)}
+			l.swapHosts = swap[i]
 			x.leases = append(x.leases, l)
 			if _, err := x.svc.Reserve(oid, gs); err != nil {
 				panic(fmt.Sprintf("harness: initial reservation failed: %v", err))
@@ -270,7 +272,7 @@ func runC14L2(r *core.Run) (*core.Violation, func() *core.Violation) {
 		other := dtypes.DeploymentID{Owner: testAddr(9).String(), DSeq: 999}
 		for _, l := range x.leases {
 			if l.closedAt != 0 && len(l.hosts) > 0 {
-				rel.herr[l] = <-x.svc.HostnameService().CanReserveHostnames(l.hosts, other)
+				rel.herr[l] = <-x.svc.HostnameService().CanReserveHostnames(l.everHosts(), other)
 			}
 		}
 		rel.st, rel.err = x.svc.Status(context.Background())
@@ -296,7 +298,7 @@ func runC14L2(r *core.Run) (*core.Violation, func() *core.Violation) {
 		if l.closedAt != 0 && len(l.hosts) > 0 {
 			r.Count("probe:l2-hostnames-release-checked")
 			if rel.herr[l] != nil {
-				return r.Flag("C14/hostnames-not-released", "lease %s is closed and torn down but its hostnames %v cannot be reserved by another deployment: %v (L2)", l.key, l.hosts, rel.herr[l]), nil
+				return r.Flag("C14/hostnames-not-released", "lease %s is closed and torn down but its hostnames %v cannot be reserved by another deployment: %v (L2)", l.key, l.everHosts(), rel.herr[l]), nil
 			}
 		}
 	}
